@@ -121,6 +121,7 @@ func parseStrace(path string) ([]*sysRec, bool, error) {
 		seq  int
 	}
 	pending := map[int]pend{}
+	torn := map[int]pend{}
 	killed := false
 	seq := 0
 	for sc.Scan() {
@@ -160,9 +161,23 @@ func parseStrace(path string) ([]*sysRec, bool, error) {
 			}
 			r, err := parseFull(pid, text, seq, seq)
 			if err != nil {
-				return nil, killed, fmt.Errorf("line %d: %v", seq, err)
+				// a line without a result: strace was cut off while printing it (it dies with its tracee).
+				// Acceptable only as the very last thing that thread did: then it is a call that never returned.
+				if old, ok := torn[pid]; ok {
+					return nil, killed, fmt.Errorf("line %d: no result: %.60s ... %s", old.seq, old.text, tailOf(old.text))
+				}
+				torn[pid] = pend{text, seq}
+				continue
+			}
+			if old, ok := torn[pid]; ok {
+				return nil, killed, fmt.Errorf("line %d: no result: %.60s ... %s", old.seq, old.text, tailOf(old.text))
 			}
 			recs = append(recs, r)
+		}
+	}
+	for pid, p := range torn {
+		if _, ok := pending[pid]; !ok {
+			pending[pid] = p
 		}
 	}
 	// calls that were entered and never came back (the process was killed inside them)
@@ -203,4 +218,11 @@ func strOf(a string) (string, bool) {
 	a = strings.TrimPrefix(a, "\"")
 	a = strings.TrimSuffix(a, "\"")
 	return unhex(a), complete
+}
+
+func tailOf(s string) string {
+	if len(s) > 120 {
+		return s[len(s)-120:]
+	}
+	return s
 }
